@@ -112,6 +112,8 @@ def ob_precreate_restart(ex, fanout=2):
         R(["Path::join"], m_join)
         R(["create_dir_all", "fs::create_dir_all", "DirBuilder::create"], m_create_dir_all)
         R(["create_dir", "fs::create_dir"], m_create_dir)
+        R(["DirBuilder::new"], lambda ex2, s, fr, c, a, d, r: VOpaque("dirbuilder", True))
+        R(["DirBuilder::recursive", "DirBuilder::mode"], lambda ex2, s, fr, c, a, d, r: a[0])
         R(["Path::exists", "Path::is_dir", "Path::try_exists"], m_exists)
         ex.models.table.pop("pre_create_all_cas_directories", None)
         fn = patched(find_fn(ex, "pre_create_all_cas_directories"), fanout)
